@@ -19,7 +19,7 @@ import os
 import vlib
 
 REAL_MB = 20010
-KEEP = {"Cfg", "Call", "Ret", "Tick", "Minute", "Fill", "MailReject", "Snap", "Quiesced"}
+KEEP = {"Cfg", "Call", "Ret", "Tick", "Minute", "Fill", "MailReject", "Snap", "Quiesced", "Yield", "Resume"}
 
 CFG = """SPECIFICATION %(spec)s
 CONSTANTS
@@ -323,6 +323,11 @@ def run(ctx, replay):
                 pick += vlib.sample(ctx.rng, [b for b in got if not any(b is x for x in pick)], n - len(pick))
                 for b in pick:
                     b["level"] = "remote"
+                    # how each delivery ends is the environment's choice: pooled or non-poolable connection
+                    b["reuse"] = 1 if ctx.rng.random() < 0.3 else 10
+                    for st in b["hist"]:
+                        if st["a"] == "End":
+                            st["how"] = ctx.rng.choice(["abort", "commit", "datafail", "drop", "rsetfail"])
             if k == "gen-endpoint":
                 for b in pick:
                     b["level"] = "endpoint"
